@@ -75,7 +75,48 @@ def build_roots(tier):
             }
             for pn, body in progs.items():
                 add('r_%s_%s' % (pn, tag), 'pub fn r_%s_%s(a: %s) -> %s { %s }' % (pn, tag, T, T, body), kind='prog', p=pn, n=n, l=L)
+    for pn, n, combo in gen_programs(tier):
+        for L in ('Rows', 'Cols'):
+            st = _steps(L, n); expr = 'a'; effs = []
+            for c in combo:
+                expr = st[c][0] % expr; effs.append(st[c][1])
+            tag = '%s%d' % (L, n)
+            add('r_%s_%s' % (pn, tag), 'pub fn r_%s_%s(a: %s) -> %s { %s }' % (pn, tag, M(L, n), M(L, n), expr), kind='gprog', effs=effs, n=n, l=L)
     return roots, meta
+
+
+# generated compositions: each step is a matrix -> matrix API use with a layout-independent abstract effect
+def _steps(L, n):
+    O = 'Cols' if L == 'Rows' else 'Rows'; Mx = '%s%d' % (L, n); Ox = '%s%d' % (O, n)
+    return {
+        'T': ('%s.transposed()', 'T'), 'TI': ('{ let mut m = %s; m.transpose(); m }', 'T'),
+        'RA': (Mx + '::from_row_array(%s.into_row_array())', 'I'), 'CA': (Mx + '::from_col_array(%s.into_col_array())', 'I'),
+        'RC': (Mx + '::from_row_array(%s.into_col_array())', 'T'), 'CR': (Mx + '::from_col_array(%s.into_row_array())', 'T'),
+        'RAS': (Mx + '::from_row_arrays(%s.into_row_arrays())', 'I'), 'CAS': (Mx + '::from_col_arrays(%s.into_col_arrays())', 'I'),
+        'RCS': (Mx + '::from_row_arrays(%s.into_col_arrays())', 'T'),
+        'L': (Mx + '::from(' + Ox + '::from(%s))', 'I'), 'LT': (Mx + '::from(' + Ox + '::from(%s).transposed())', 'T'),
+        'D': (Mx + '::with_diagonal(%s.diagonal())', 'D'), 'MAP': ('%s.map(|x| x)', 'I'),
+    }
+
+
+def gen_programs(tier):
+    """(name, size, steps) of the generated compositions for the tier"""
+    import itertools
+    names = list(_steps('Rows', 2))
+    out = []
+    for n in (2, 3, 4):
+        maxlen = 2 if (tier == 'thorough' or n == 3) else 0
+        if tier == 'thorough' and n == 3: maxlen = 3
+        for ln in range(2, maxlen + 1):
+            for combo in itertools.product(names, repeat=ln):
+                out.append(('g_' + '_'.join(combo), n, combo))
+    return out
+
+
+def apply_effect(G, eff, n):
+    if eff == 'T': return transpose(G)
+    if eff == 'D': return [[G[i][j] if i == j else C(0) for j in range(n)] for i in range(n)]
+    return G
 
 
 PROG = {
@@ -225,6 +266,10 @@ def run(ctx):
             E = [A[q // n][q % n] for q in range(n * n)]
             vec_eq(ctx, key + '/order', vals, E, 'trace: Display prints elements row by row', r.code)
             display[(L, n)] = [(e[0], e[1] if e[0] == 'fmt' else str(p.term(e[1])).split('.')[-2:]) for e in p.events if e[0] in ('fmt', 'fmtval', 'fmtarg')]
+        elif k == 'gprog':
+            G = msyms('a0', L, n)
+            for e in m['effs']: G = apply_effect(G, e, n)
+            grid_eq(ctx, key, mgrid(p.ret, L, n), G, 'perm: composed API calls give the same abstract matrix in both layouts (composition of the per-call element maps)', r.code)
         elif k == 'prog':
             A = msyms('a0', L, n)
             grid_eq(ctx, key, mgrid(p.ret, L, n), PROG[m['p']](A, n), 'perm: short program gives the same abstract matrix in both layouts', r.code)
@@ -233,5 +278,5 @@ def run(ctx):
             a = [(x[0], x[1] if x[0] == 'fmt' else None) for x in display[('Rows', n)]]
             b = [(x[0], x[1] if x[0] == 'fmt' else None) for x in display[('Cols', n)]]
             ctx.ob('c03/display/layout-independent/%d' % n, a == b, 'trace: Display output (literal pieces, element positions, and whether the caller\'s format parameters are forwarded to the elements) does not depend on the layout', 'Display for Mat%d' % n, a, b)
-    ctx.floor('roots analysed', done, 344)
+    ctx.floor('roots analysed', done, 344 + 2 * len(gen_programs(ctx.tier)))
     ctx.floor('obligations', ctx.obligations, 2900)
